@@ -392,6 +392,14 @@ abbrev Dict (α : Type) := List ((α × α) × List α)
 def Dict.get (F : FieldOps α) (d : Dict α) (k : α × α) : Option (List α) :=
   (d.find? (fun e => F.beq e.1.1 k.1 && F.beq e.1.2 k.2)).map (·.2)
 
+/-- `match dict.get(&key) { Some(v) => v.to_owned(), None => { let v = compute; dict.insert(key, v.clone()); v } }` -/
+def memoGet (d : Dict α) (key : α × α) (compute : Option (List α)) : Option (List α × Dict α) :=
+  match Dict.get F d key with
+  | some v => some (v, d)
+  | none => do
+    let v ← compute
+    pure (v, d ++ [(key, v)])
+
 def batchMemoFuel (t : Thr) : Nat → List α → List (List α) → Dict α × Dict α →
     Option (List (List α) × (Dict α × Dict α))
   | 0, _, _, _ => none
@@ -405,29 +413,15 @@ def batchMemoFuel (t : Thr) : Nat → List α → List (List α) → Dict α × 
       match domain[0]?, domain[half - 1]?, domain[half]?, domain.getLast? with
       | some d0, some dh1, some dh, some dl => do
         let lkey := (d0, dh1)
-        let (lz, zd) ← (match Dict.get F zd lkey with
-          | some z => some (z, zd)
-          | none => do
-            let z ← zerofierWith F E t.zf (domain.take half)
-            pure (z, zd ++ [(lkey, z)]))
         let rkey := (dh, dl)
-        let (rz, zd) ← (match Dict.get F zd rkey with
-          | some z => some (z, zd)
-          | none => do
-            let z ← zerofierWith F E t.zf (domain.drop half)
-            pure (z, zd ++ [(rkey, z)]))
-        let (loi, od) ← (match Dict.get F od lkey with
-          | some v => some (v, od)
-          | none => do
+        let (lz, zd) ← memoGet F zd lkey (zerofierWith F E t.zf (domain.take half))
+        let (rz, zd) ← memoGet F zd rkey (zerofierWith F E t.zf (domain.drop half))
+        let (loi, od) ← memoGet F od lkey (do
             let lo ← bevSeq F E t rz (domain.take half)
-            let v ← batchInversion F lo
-            pure (v, od ++ [(lkey, v)]))
-        let (roi, od) ← (match Dict.get F od rkey with
-          | some v => some (v, od)
-          | none => do
+            batchInversion F lo)
+        let (roi, od) ← memoGet F od rkey (do
             let ro ← bevSeq F E t lz (domain.drop half)
-            let v ← batchInversion F ro
-            pure (v, od ++ [(rkey, v)]))
+            batchInversion F ro)
         -- `values[..half]`, `values[half..]` panic on short rows
         if matrix.any (fun values => values.length < half) then none else
         let ltargets := matrix.map (fun values => List.zipWith F.mul (values.take half) loi)
